@@ -20,7 +20,7 @@ PARAMS = {
     "c": [["c", -3.0, 5.0], ["c", 0.0, 1e-3]],
     "cm": [["cm", [-1.0, 0.0, 10.0], [1.0, 5.0, 11.0]], ["cm", [2.0], [3.0]]],          # incl. size 1
     "mo": [["mo", [-5.0, -5.0], [5.0, 0.0]], ["mo", [0.5], [0.75]]],                      # incl. size 1
-    "d": [["d", [1, 5, 9, 11]], ["d", ["x"]]],
+    "d": [["d", [1, 5, 9, 11]], ["d", ["x"]], ["d", [[64], [64, 32], [], [128, 64, 32]]]],     # scalar, single, list-valued choices
     "dm": [["dm", [[1, 5, 9], [0.5, 2.5], [3, 4, 6, 8]]], ["dm", [["u", "v"], [7, 8, 9]]], ["dm", [[4, 2]]]],  # 3, 2, 1 children
     "b": [["b", 3], ["b", 1]],
 }
@@ -69,7 +69,9 @@ def rand_position(rng, flat):
             pos.append(rng.choice([0, n - 1, rng.randrange(n), -1, n, n - 0.5, rng.uniform(-1, n + 1), rng.randrange(n)]))
         else:
             n = v[1]
-            pos.append(rng.choice([rng.sample(range(n), n), [rng.uniform(0, n) for _ in range(n)]]))
+            pos.append(rng.choice([rng.sample(range(n), n), [rng.uniform(0, n) for _ in range(n)],
+                                   [rng.uniform(-3 * n, 3 * n) for _ in range(n)], [rng.choice([-7.5, -2.0, n + 1.0, n + 9.0, 0.5]) + 0.01 * k for k in range(n)][::-1],
+                                   [-(k + 1.0) for k in range(n)], [n + 5.0 - k for k in range(n)]]))
     return pos
 
 
@@ -216,7 +218,7 @@ def check_task(bag, rng, spec_vars, n_pos):
 
 def all_lists(max_len, params_per_type):
     types = ["c", "cm", "mo", "d", "dm", "b"]
-    options = [p for t in types for p in PARAMS[t][:params_per_type.get(t, 2)]]
+    options = [p for t in types for p in PARAMS[t][:params_per_type.get(t, 3)]]
     for L in range(1, max_len + 1):
         for combo in itertools.product(options, repeat=L):
             yield [list(map(lambda z: z, v)) for v in combo]
